@@ -681,3 +681,53 @@ def edge_guards(fn, edge, target):
         if ft and ft[0] and all(fn.edge_dominates(edge, s) for s in ft[0]):
             return True
     return False
+
+
+def inlined_calls(db, fn, depth=2, _outer=None, _seen=None):
+    """calls of `fn` plus the calls of private helper methods of the same type that it invokes, attributed to the
+    *outer* call site in `fn` (so that extracting part of a function into a helper is invisible to order rules).
+    returns list of (outer_site, Call, helper_chain)"""
+    out = []
+    _seen = _seen or {fn.id}
+    for c in fn.calls():
+        outer = _outer if _outer is not None else c.site
+        out.append((outer, c, []))
+        tgt = None
+        for nm in (c.resolved, c.callee):
+            if nm and nm in db.fns:
+                tgt = db.fns[nm]
+                break
+        if tgt is None or depth <= 0 or tgt.id in _seen:
+            continue
+        same_type = tgt.raw.get("impl_self") and tgt.raw.get("impl_self") == fn.raw.get("impl_self") and not tgt.raw.get("impl_trait")
+        if same_type and tgt.raw.get("vis") != "Public" and tgt.kind == "method":
+            for o2, c2, ch in inlined_calls(db, tgt, depth - 1, outer, _seen | {tgt.id}):
+                out.append((outer, c2, [tgt.id] + ch))
+    return out
+
+
+def guard_flags(db):
+    """(armed, notify_on_cancel) field names of the lifecycle guard, resolved by role: `armed` is the bool field whose
+    test guards the cleanup's first status store; the other bool is the cancellation-notification flag"""
+    m = model(db)
+    g = db.adt(m.guard_adt())
+    bools = [f["name"] for f in g["variants"][0]["fields"] if f["ty"] == "bool"]
+    if len(bools) != 2:
+        raise AnchorLost("lifecycle guard bool flags: %s" % bools)
+    cl = m.guard_cleanup()
+    armed = None
+    stat = [c for o, c, ch in inlined_calls(db, cl) if c.is_("ActorCell::set_status")]
+    for site, sw in cl.switches():
+        if sw["dty"] != "bool":
+            continue
+        for r in cl.origins(sw["discr"]):
+            for e in r.get("proj", []):
+                if e.startswith("f:") and len(e.split(":")) > 2 and e.split(":")[2] in bools and r["k"] in ("arg", "upvar"):
+                    armed = e.split(":")[2]
+        if armed:
+            break
+    if armed is None:
+        # the flag may be read through a swap/replace: fall back to the bool that is *not* written by a &mut self method other than cleanup
+        raise AnchorLost("guard `armed` flag (no direct test of a bool field at the head of cleanup)")
+    other = [b for b in bools if b != armed][0]
+    return armed, other
